@@ -4,21 +4,23 @@ Require Import Pearl.Base.Prelude Pearl.Storage.Model Pearl.Storage.Spec Pearl.S
 
 (* records_count, the per-blob counts, the active-blob count, blobs_count, next_blob_id and
    corrupted_blobs_count equal the values implied by the log (records physically appended per blob,
-   deletion markers included; blobs that exist) in every state whose indexes describe their blobs,
-   PROVIDED no slot of the closed list was vacated in this session and the active blob's id is the
-   number of slots. The two provisos are exactly what finding F3 violates (see C15_blobs_count_refuted):
-   the code counts slots, not blobs. *)
+   deletion markers included; blobs that exist) in every state whose indexes describe their blobs.
+   Before the repair of the counters (commits b2a4900 / 7f20c40 of the code) two more provisos were
+   needed -- no vacated slot in the closed list, id of the active blob = number of slots -- because
+   the code counted slots, not blobs (finding F3). *)
 Theorem C15_counts :
-  forall (K : N) (s : storage),
-    BlobsOk K s ->
-    (forall o, In o (s_closed s) -> o <> None) ->
-    (forall b, s_active s = Some b -> b_id b = N.of_nat (length (s_closed s))) ->
-    counts s = spec_counts s.
+  forall (K : N) (s : storage), BlobsOk K s -> counts s = spec_counts s.
 Proof. exact counts_spec. Qed.
 
-(* the per-blob invariant holds after every history (unless the known class F2 was hit) *)
+(* hence after every history *)
+Theorem C15_counts_after_every_history :
+  forall (K : N) (cfg : config) (ops : list op),
+    counts (reach K cfg ops) = spec_counts (reach K cfg ops).
+Proof. exact reach_counts. Qed.
+
+(* the per-blob invariant holds after every history *)
 Theorem C15_invariant_after_every_history :
-  forall (K : N) (cfg : config) (ops : list op), s_f2 (reach K cfg ops) = false -> Inv K (reach K cfg ops).
+  forall (K : N) (cfg : config) (ops : list op), Inv K (reach K cfg ops).
 Proof. exact reach_Inv. Qed.
 
 (* the number of headers an index holds is the number of records appended to its blob *)
@@ -29,17 +31,22 @@ Proof. exact imap_count_index_of. Qed.
 Theorem C15_next_id_above_all :
   forall (K : N) (cfg : config) (ops : list op),
     IdsOk (reach K cfg ops).
-Proof. intros K cfg ops. apply (run_IdsOk K cfg ops init_storage), init_IdsOk. Qed.
+Proof. exact reach_IdsOk. Qed.
 
-(* REFUTED for blobs_count after close + restore (finding F3): the faithful model counts the vacated slot *)
-Theorem C15_blobs_count_refuted :
+(* the history that REFUTED the equality before the repair of the counters (finding F3: after
+   close_active + restore_active the vacated slot was counted and its number reported as the id of the
+   active blob; commits b2a4900 / 7f20c40 of the code) now satisfies it: one blob, the pair (0, 1) *)
+Theorem C15_blobs_count_after_restore :
   let cfg := {| c_dup := true; c_maxrec := 1000; c_maxsize := 1000000 |} in
   let s := fst (run 4 cfg init_storage [OOpen false; OWrite 1 7 None 8 5 1; OCloseActive; ORestoreActive]) in
-  counts s <> spec_counts s.
-Proof. exact blobs_count_refuted. Qed.
+  s_closed s = [None] /\
+  counts s = spec_counts s /\
+  counts s = RCounts 1 [(0, 1)] (Some 1) 1 1 0 true.
+Proof. exact blobs_count_after_restore. Qed.
 
 Print Assumptions C15_counts.
+Print Assumptions C15_counts_after_every_history.
 Print Assumptions C15_invariant_after_every_history.
 Print Assumptions C15_index_count.
 Print Assumptions C15_next_id_above_all.
-Print Assumptions C15_blobs_count_refuted.
+Print Assumptions C15_blobs_count_after_restore.
